@@ -279,6 +279,19 @@ def evaluate(case):
             # near-vertical / very short: the conditioning model of DESIGN C01 (x10); beyond the W tolerance -> finding K4
             if is_basic:
                 continue
+        if region == "N" and not is_basic and not tags["crosses_z_uniform"]:
+            stats["nv_max_dL"] = max(stats.get("nv_max_dL", 0.0), dL)
+            stats["nv_max_dT"] = max(stats.get("nv_max_dT", 0.0), dT)
+            stats["nv_rays"] = stats.get("nv_rays", 0) + 1
+            ratio = abs((Tr / Lr) / (float(m["t"][j]) / float(m["s"][j])) - 1.0)
+            stats["nv_max_ratio"] = max(stats.get("nv_max_ratio", 0.0), ratio)
+            # near-vertical rays above z_uniform: length and time each carry the conditioning error of finding K4, but they carry
+            # the SAME relative error (measured: their ratio agrees with the marched ray's to 1.3e-4 on all 1916 such rays of the
+            # thorough lattice) -- time / length is the path-averaged index of one and the same ray
+            if not ratio <= 5e-4:
+                fails.append(_f("time-length-ratio", case, zt, rh, "solution %d: c tof / path_length = %.6f, path-averaged index of the "
+                                "marched ray %.6f (rel. %.3g > 5e-4)" % (si, Tr / Lr * 299792458.0,
+                                                                         float(m["t"][j]) / float(m["s"][j]) * 299792458.0, ratio), **tags))
         if not miss <= tol_miss:
             fails.append(_f("arrival", case, zt, rh, "solution %d (direct=%s): launched in the reported direction the ray passes the receiver at %.4g m %s (tol %.3g; %.4g m in the other phase), L=%.6g"
                             % (si, direct, miss, "before turning/reflecting" if direct else "after turning/reflecting", tol_miss, float(other_miss[j]), Lr), **tags))
